@@ -563,6 +563,8 @@ class Flattener:
             for c in ast.iter_child_nodes(e):
                 if isinstance(c, ast.expr):
                     rec(c, cond)
+                elif isinstance(c, ast.keyword):
+                    rec(c.value, cond)  # f(name=helper(x)): evaluated like a positional argument
             if isinstance(e, ast.Call) and not cond:
                 out.append(e)
 
